@@ -7,6 +7,8 @@ mod link;
 mod metadata;
 mod predicate;
 mod statement;
+#[cfg(feature = "verif-hooks")]
+pub mod verif_hooks;
 
 pub use helpers::*;
 pub use layout::*;
